@@ -330,3 +330,48 @@ def max_steps(cfg: Cfg, start, n):
 
 def sentence_lengths(cfg: Cfg, start, n):
     return sorted({len(w) for w in language(cfg, start, n)})
+
+
+def production_reach(cfg: Cfg, start):
+    """For every production: length of the shortest sentence whose derivation uses it (None if unusable).
+    Used to check that the corpus reaches every mechanism *within the token bound* of a check."""
+    INF = 10 ** 9
+    minlen = {a: INF for a in cfg.prods}
+    changed = True
+    while changed:
+        changed = False
+        for a, ps in cfg.prods.items():
+            for p in ps:
+                t = 0
+                for s in p:
+                    t += 1 if is_term(s) else minlen.get(s, INF)
+                if t < minlen[a]:
+                    minlen[a] = t
+                    changed = True
+    ctx = {a: INF for a in cfg.prods}
+    if start in ctx:
+        ctx[start] = 0
+    changed = True
+    while changed:
+        changed = False
+        for b, ps in cfg.prods.items():
+            if ctx[b] >= INF:
+                continue
+            for p in ps:
+                lens = [1 if is_term(s) else minlen.get(s, INF) for s in p]
+                tot = sum(lens)
+                if tot >= INF:
+                    continue
+                for i, s in enumerate(p):
+                    if not is_term(s):
+                        c = ctx[b] + tot - lens[i]
+                        if c < ctx[s]:
+                            ctx[s] = c
+                            changed = True
+    out = {}
+    for a, ps in cfg.prods.items():
+        for i, p in enumerate(ps):
+            tot = sum(1 if is_term(s) else minlen.get(s, INF) for s in p)
+            v = ctx[a] + tot
+            out[(a, i)] = None if v >= INF else v
+    return out
